@@ -192,7 +192,7 @@ func admitted(p *core.Program, s *eng.RewriteSite, path string) ([]eng.AbsType, 
 
 func runC02(p *core.Program, r *core.Report) {
 	r.Explanation = "Decides, per rewrite site of the optimizer (every call of ast.Patch, directly or through a local wrapper), the clauses without which the rewrite cannot be meaning-preserving: (R2.1) a rewrite that keeps a dynamic operand of the matched node while replacing its sibling or its operator (membership in a literal array → map lookup; membership in a literal range → two comparisons) is reached only on paths whose conditions pin the operand's STATIC TYPE to one predeclared kind — not nil, not another kind, not a named type — because it changes which run-time primitive is applied to that operand; for a lookup map the kind is the map's key kind; (R2.2) a fold that computes on integer literals in Go int and carries the literal's static type over to the result is reached only for literals whose type is nil or plain int (the compiler pushes a retyped literal as a value of its type: float64(1)/float64(2) is not float64(1/2)); (R2.3) no replacement uses an operand of the matched node twice, and none drops a child of the matched node that the path has not established to be a literal; (R2.4) the only errors the optimizer creates are the constant division/modulo by zero (a file.Error built under the `/` or `%` case and under a test of the divisor literal for zero) and the recovered panic of a compile-time call; (R2.5) expr.Compile runs the optimizer only under the Optimize option, after the last type check, operator patch and user visitors, and before code generation; (R2.6) each fold applies to the literal values the Go operator (or library function) that the DSL operator of its case denotes, operands in order; (R2.9) every integer division of literal values is dominated by the zero test; (R2.10) membership in `a..b` becomes `x >= a and x <= b` with a the range's left and b its right bound, `not in` its negation."
-	r.NotDecided = []string{"equality of results of the optimized and unoptimized program (a value-level equivalence)", "integer overflow differences between folded and run-time arithmetic", "that a ConstExpr function is pure", "agreement of the compile-time range builder with the run-time one (R2.7 not built)", "order and arity of literal-array folds (R2.8 not built)"}
+	r.NotDecided = []string{"equality of results of the optimized and unoptimized program (a value-level equivalence)", "integer overflow differences between folded and run-time arithmetic", "that a ConstExpr function is pure", "order and arity of literal-array folds (R2.8 not built)"}
 	nk, msg := eng.FindNodeKinds(p)
 	if nk == nil {
 		r.Unk("R2.1", "node kinds", "", msg)
@@ -286,6 +286,7 @@ func runC02(p *core.Program, r *core.Report) {
 	c02Errors(p, r)
 	c02Pipeline(p, r)
 	c02RangeShape(p, r, nk, sites)
+	rangeBuilderRule(p, r)
 	r.Floor("R2.1", 3)
 	r.Floor("R2.2", 9)
 	r.Floor("R2.3", 18*2)
@@ -884,6 +885,9 @@ func c02Controls() []core.Mutant {
 		{Name: "zero test before the constant division removed", File: "optimizer/fold.go", Old: "\t\t\t\t\tif b.Value == 0 {\n\t\t\t\t\t\tfold.err = &file.Error{\n\t\t\t\t\t\t\tLocation: (*node).Location(),\n\t\t\t\t\t\t\tMessage:  \"integer divide by zero\",\n\t\t\t\t\t\t}\n\t\t\t\t\t\treturn\n\t\t\t\t\t}\n\t\t\t\t\tpatchWithType(&IntegerNode{Value: a.Value / b.Value}, a.Type())", New: "\t\t\t\t\tpatchWithType(&IntegerNode{Value: a.Value / b.Value}, a.Type())", Rule: "R2.9", Construct: "constant /"},
 		{Name: "error recorded under the * case", File: "optimizer/fold.go", Old: "\t\tcase \"*\":\n", New: "\t\tcase \"*\":\n\t\t\tif _, ok := n.Left.(*StringNode); ok {\n\t\t\t\tfold.err = &file.Error{Location: (*node).Location(), Message: \"cannot multiply a string\"}\n\t\t\t\treturn\n\t\t\t}\n", Rule: "R2.4", Construct: "error site"},
 		{Name: "optimizer runs before the operator patch", File: "expr.go", Old: "\t// Patch operators before Optimize, as we may also mark it as ConstExpr.\n\tcompiler.PatchOperators(&tree.Node, config)\n", New: "\tif config.Optimize {\n\t\t_ = optimizer.Optimize(&tree.Node, config)\n\t}\n\tcompiler.PatchOperators(&tree.Node, config)\n", Rule: "R2.5", Construct: "optimizer after checks"},
+		{Name: "compile-time range is one element short", File: "optimizer/const_range.go", Old: "size := max.Value - min.Value + 1", New: "size := max.Value - min.Value", Rule: "R2.7", Construct: "size is max - min + 1"},
+		{Name: "compile-time range starts one too high", File: "optimizer/const_range.go", Old: "value[i] = min.Value + i", New: "value[i] = min.Value + i + 1", Rule: "R2.7", Construct: "element i is min + i"},
+		{Name: "run-time range treats a singleton as empty", File: "vm/runtime.go", Old: "\tsize := max - min + 1\n\tif size <= 0 {\n\t\treturn []int{}", New: "\tsize := max - min + 1\n\tif size <= 1 {\n\t\treturn []int{}", Rule: "R2.7", Construct: "empty exactly when"},
 		{Name: "bounds swapped in the range membership rewrite", File: "optimizer/in_range.go", Old: "\t\t\t\t\t\t\tOperator: \">=\",\n\t\t\t\t\t\t\tLeft:     n.Left,\n\t\t\t\t\t\t\tRight:    from,", New: "\t\t\t\t\t\t\tOperator: \">=\",\n\t\t\t\t\t\t\tLeft:     n.Left,\n\t\t\t\t\t\t\tRight:    to,", Edits: [][2]string{{"\t\t\t\t\t\t\tOperator: \"<=\",\n\t\t\t\t\t\t\tLeft:     n.Left,\n\t\t\t\t\t\t\tRight:    to,", "\t\t\t\t\t\t\tOperator: \"<=\",\n\t\t\t\t\t\t\tLeft:     n.Left,\n\t\t\t\t\t\t\tRight:    from,"}}, Rule: "R2.10", Construct: "lower bound"},
 		{Name: "empty descending range folded to a constant, operand dropped", File: "optimizer/in_range.go", Old: "\t\t\t\t\tif to, ok := rng.Right.(*IntegerNode); ok {\n", New: "\t\t\t\t\tif to, ok := rng.Right.(*IntegerNode); ok {\n\t\t\t\t\t\tif from.Value > to.Value {\n\t\t\t\t\t\t\tPatch(node, &BoolNode{Value: n.Operator == \"not in\"})\n\t\t\t\t\t\t\treturn\n\t\t\t\t\t\t}\n", Rule: "R2.3", Construct: "no dynamic child dropped"},
 		{Name: "REFACTORING: the plain-int predicate as a package-level helper", File: "optimizer/fold.go", Silent: true,
